@@ -125,7 +125,7 @@ theorem initQub_good (P : Problem α) (pr : Params α) (stop : Nat → Bool) (f 
     · exact h
 
 theorem initState_good (P : Problem α) (d0 : D) (pr : Params α) (stop : Nat → Bool) (x0 gV : Vec α)
-    (gS : α) (s : St α D) (h : initState P d0 pr stop x0 gV gS = .inr s) : Good P pr s.curr := by
+    (gS iS : α) (s : St α D) (h : initState P d0 pr stop x0 gV gS iS = .inr s) : Good P pr s.curr := by
   unfold initState at h
   simp only [] at h
   split_ifs at h
